@@ -346,4 +346,76 @@ theorem capFlags_eq (cap : Nat) (rows : List (FRow (List KVal) (Row ν))) :
 
 
 end capflags
+section columns
+variable {ν : Type} [NumOps ν]
+
+theorem evalAll_length (cap : Nat) : ∀ (fs : List (Field ν)) (es : List (FEng ν)) (r : Row ν),
+    fs.length = es.length → (evalAll cap fs es r).1.length = es.length ∧ (evalAll cap fs es r).2.length = es.length := by
+  intro fs
+  induction fs with
+  | nil => intro es r h; cases es <;> simp_all [evalAll]
+  | cons f fs ih =>
+    intro es r h
+    cases es with
+    | nil => simp at h
+    | cons e es =>
+      have := ih es r (by simpa using h)
+      simp [evalAll, this]
+
+/-- field `i` of `AnalyticEngine.Evaluate` only depends on engine `i` -/
+theorem evalAll_get (cap : Nat) : ∀ (fs : List (Field ν)) (es : List (FEng ν)) (r : Row ν) (i : Nat)
+    (f : Field ν) (e : FEng ν), fs[i]? = some f → es[i]? = some e →
+    (evalAll cap fs es r).1[i]? = some (fieldEval cap f e r).1 ∧
+    (evalAll cap fs es r).2[i]? = some (fieldEval cap f e r).2 := by
+  intro fs
+  induction fs with
+  | nil => intro es r i f e hf; simp at hf
+  | cons f0 fs ih =>
+    intro es r i f e hf he
+    cases es with
+    | nil => simp at he
+    | cons e0 es =>
+      cases i with
+      | zero =>
+        simp at hf he
+        subst hf; subst he
+        simp [evalAll]
+      | succ i =>
+        simp at hf he
+        have := ih es r i f e hf he
+        simpa [evalAll] using this
+
+/-- the fields of a query do not interfere: column `i` of the analytic results over any row
+sequence is the run of field `i`'s own engine -/
+theorem machine_column (cap : Nat) (fs : List (Field ν)) (init0 : List (FEng ν)) (i : Nat) (f : Field ν)
+    (hf : fs[i]? = some f) :
+    ∀ (rows : List (Row ν)) (es : List (FEng ν)) (e : FEng ν), es[i]? = some e → fs.length = es.length →
+      ((({ init := init0, step := evalAll cap fs } : Machine (List (FEng ν)) (Row ν) (List (Option (COut ν)))).outs es rows).map
+        (fun o => o.getD i none)) = engRun cap (fieldMachine f) e (modelRows f rows) := by
+  intro rows
+  induction rows with
+  | nil => intro es e _ _; rfl
+  | cons r rs ih =>
+    intro es e he hlen
+    obtain ⟨h1, h2⟩ := evalAll_get cap fs es r i f e hf he
+    have hl := (evalAll_length cap fs es r hlen).1
+    have := ih (evalAll cap fs es r).1 (fieldEval cap f e r).1 h1 (by rw [hl]; exact hlen)
+    simp only [Machine.outs, List.map_cons, modelRows, engRun] at this ⊢
+    rw [this]
+    congr 1
+    simp [List.getD, h2, fieldEval]
+
+/-- for a query: column `i` of `Query.machine` from the initial state = field `i` alone -/
+theorem query_column (q : Query ν) (i : Nat) (f : Field ν) (hf : q.allFields[i]? = some f) (rows : List (Row ν)) :
+    ((q.machine.outs q.machine.init rows).map (fun o => o.getD i none)) =
+      engRun (effCap q.cap) (fieldMachine f) (Eng.empty : FEng ν) (modelRows f rows) := by
+  have hi : i < q.allFields.length := by
+    rcases Nat.lt_or_ge i q.allFields.length with h | h
+    · exact h
+    · rw [List.getElem?_eq_none h] at hf; simp at hf
+  exact machine_column (effCap q.cap) q.allFields _ i f hf rows _ Eng.empty
+    (by simp [Query.machine, hi]) (by simp [Query.machine])
+
+
+end columns
 end Analytic
